@@ -1,7 +1,7 @@
 """C21 Instant-based procedures apply at their instant or end the link (structure)."""
 from .lib.match import *
 
-SELECT = r'^bluetoe::link_layer::link_layer::(handle_ll_control_data|handle_pending_ll_control|handle_received_data|end_event|timeout|start_advertising_impl)$|^bluetoe::link_layer::details::phy_update_request_impl::|^bluetoe::link_layer::details::connection_state_base::plan_next_connection_event$'
+SELECT = r'^bluetoe::link_layer::link_layer::(defer_ll_control_pdu|handle_ll_control_data|handle_pending_ll_control|handle_received_data|end_event|timeout|start_advertising_impl)$|^bluetoe::link_layer::details::phy_update_request_impl::|^bluetoe::link_layer::details::connection_state_base::plan_next_connection_event$'
 UNITS = lambda u: u in ('w_inst_ll',) or u.startswith('t_link_layer_ll_control') or u.startswith('t_link_layer_ll_phy')
 LL = 'bluetoe::link_layer::link_layer::'
 PH = 'bluetoe::link_layer::details::phy_update_request_impl::'
@@ -16,7 +16,10 @@ INSTANT = {'LL_CONNECTION_UPDATE_IND': 'handle_ll_control_data', 'LL_CHANNEL_MAP
 
 
 def deferral_stores(fn):
-    return [(tgt, val, st) for tgt, op, val, st in stores(fn.body) if target_name(tgt) == 'defered_ll_control_pdu_' and op == '=' and val is not None and is_name(val, 'pdu')]
+    """sites that defer the received PDU: direct stores `defered_ll_control_pdu_ = pdu` and calls of the copying helper defer_ll_control_pdu(pdu)"""
+    out = [(tgt, val, st) for tgt, op, val, st in stores(fn.body) if target_name(tgt) == 'defered_ll_control_pdu_' and op == '=' and val is not None and is_name(val, 'pdu')]
+    out += [(None, c.args()[0], c) for c in fn.body.calls('defer_ll_control_pdu') if c.args() and is_name(c.args()[0], 'pdu')]
+    return out
 
 
 def run(chk, facts, tier):
@@ -47,7 +50,7 @@ def run(chk, facts, tier):
                     ok = other is not None and any(strip_casts(v).n == 'connection_instant_passed' for t2, o2, v, s2 in stores(other) if v is not None) and \
                         any(strip_casts(v).n == 'disconnect' for t2, o2, v, s2 in stores(other) if v is not None)
                     why = 'instant-passed edge does not terminate the connection with reason `instant passed`'
-                chk.instance('defer-only-if-instant-ahead', fn, '%s: defered_ll_control_pdu_ = pdu' % op, ok, '' if ok else why, node=st, key=op)
+                chk.instance('defer-only-if-instant-ahead', fn, '%s: PDU deferred' % op, ok, '' if ok else why, node=st, key=op)
     for op in INSTANT:
         chk.require(op in seen or tier == 'quick' and False, 'no deferral store found for %s' % op)
     # escape: pointer kept, slot released
@@ -65,7 +68,16 @@ def run(chk, facts, tier):
         elif ok:
             frs = fn.body.calls('free_ll_l2cap_received')
             ok = any(any(not isinstance(l, int) and strip_casts(l).is_call('empty') and is_name(base_object(strip_casts(l)), 'defered_ll_control_pdu_') for l, op, r in guard_atoms(fn, c)) for c in frs if c.l > hc[0].l and c.l < hc[0].l + 8)
-        copies = any(target_name(tgt) in ('defered_ll_control_pdu_copy_', 'defered_pdu_') for f2 in facts.fns(LL + 'handle_ll_control_data') for tgt, op, val, st in stores(f2.body))
+        # repaired form: the deferral copies the PDU into an own buffer (helper defer_ll_control_pdu) and no raw ring pointer is stored any more
+        helper = facts.fns(LL + 'defer_ll_control_pdu')
+        copies = bool(helper)
+        for h in helper:
+            cp = h.body.calls('copy')
+            st = [val for tgt, op, val, s2 in stores(h.body) if target_name(tgt) == 'defered_ll_control_pdu_']
+            copies = copies and len(cp) == 1 and mentions(cp[0].args()[-1], 'defered_ll_control_pdu_buffer_') and len(st) == 1 and mentions(st[0], 'defered_ll_control_pdu_buffer_') \
+                and 'min' in [c.cn for c in h.body.calls()] and mentions(h.body, 'sizeof') or (copies and any(n.k == 'UnaryExprOrTypeTraitExpr' for n in h.body.walk()) and len(cp) == 1 and len(st) == 1 and mentions(st[0], 'defered_ll_control_pdu_buffer_'))
+        raw = [1 for q in (LL + 'handle_ll_control_data', PH + 'handle_phy_request') for f2 in facts.fns(q) for tgt, op, val, s2 in stores(f2.body) if target_name(tgt) == 'defered_ll_control_pdu_' and val is not None and is_name(val, 'pdu')]
+        copies = copies and not raw
         ok = ok or copies
         chk.instance('deferred-pdu-not-released', fn, 'handle_ll_control_data(pdu, ..); free_ll_l2cap_received()', ok,
                      '' if ok else 'the control PDU\'s ring slot is released unconditionally after handle_ll_control_data() stored a pointer to it in defered_ll_control_pdu_: PDUs received before the instant can overwrite the parameters that will be applied', node=hc[0] if hc else None, key='free after defer')
